@@ -42,12 +42,13 @@ def gen_cases(rng, n):
             t1, t2 = Fr(a_, 1000), Fr(b_, 1000)
         else:
             a_ = rng.randint(0, 994)     # the sub-span stays inside the bar: parameters beyond 1 are clamped by TParam
-            t1, t2 = Fr(a_, 1000), Fr(a_, 1000) + Fr(rng.choice([1, 2, 5]), 1000)
+            # (finite elements much shorter than a thousandth of the bar exist: two loads close together, a load a hair from an end)
+            t1, t2 = Fr(a_, 1000), Fr(a_, 1000) + Fr(rng.choice(["0.001", "0.002", "0.005", "0.0004", "0.00001", "0.000000001"]))
         E = Fr(rng.choice(["1", "210000", "21000000", "2.1e11", "0.5", "3e-3"]))
         A = Fr(rng.choice(["1", "10.3", "0.00103", "250", "1e-4", "14000"]))
         I = Fr(rng.choice(["1", "171", "1.71e-6", "8356", "1e-8", "2.5e6"]))
         cases.append({"kind": kind, "X1": x1, "Y1": y1, "X2": x1 + dx, "Y2": y1 + dy,
-                      "T1": t1, "T2": t2, "E": E, "A": A, "I": I})
+                      "T1": t1, "T2": t2, "E": E, "A": A, "I": I, "Pin": k % 3 == 2})
     return cases
 
 
@@ -72,7 +73,7 @@ def dec(x):
 
 
 def to_payload(c):
-    return {k: dec(c[k]) for k in ("X1", "Y1", "X2", "Y2", "T1", "T2", "E", "A", "I")}
+    return dict({k: dec(c[k]) for k in ("X1", "Y1", "X2", "Y2", "T1", "T2", "E", "A", "I")}, Pin=bool(c.get("Pin")))
 
 
 def ref_matrix(c, s, l, EA, EI):
@@ -99,7 +100,9 @@ def oracle(case, out, rng):
     if len(K) != 6 or any(len(r) != 6 for r in K) or any(v is None for r in K for v in r):
         return ["matrix is not a finite 6x6"]
     L, c, s = C.ffloat(out["L"]), C.ffloat(out["C"]), C.ffloat(out["S"])
-    l = L * (case["T2"] - case["T1"])
+    # the sub-span the implementation sees: the two parameters as float64 values (for a span of 1e-9 the decimal
+    # difference and the difference of the floats disagree in the eighth digit)
+    l = L * abs(Fr(float(case["T2"])) - Fr(float(case["T1"])))
     kmax = max(abs(v) for r in K for v in r)
     REL = Fr(1, 10 ** 9)
     # symmetric
